@@ -4,7 +4,9 @@ import (
 	"fmt"
 	"iter"
 	"reflect"
+	"runtime"
 	"sort"
+	"sync"
 	"sync/atomic"
 )
 
@@ -39,6 +41,7 @@ type Sim struct {
 	trigs        []trigger
 	onYield      func(site int) // scheduler or fine-grained invariant hook
 	raceLax      bool
+	foreign      atomic.Bool // the library spawned a goroutine during this run
 	lastPermuted bool
 	quiet        int // >0: logging / sampling code is running; nothing may be drawn or counted
 }
@@ -82,11 +85,14 @@ func NewSim(t, s *Tape) *Sim {
 }
 
 // Activate makes s the simulator the instrumented code talks to.
-func (s *Sim) Activate()   { active.Store(s) }
+func (s *Sim) Activate()   { Own(); active.Store(s) }
 func (s *Sim) Deactivate() { active.CompareAndSwap(s, nil) }
 
 // Active returns the active simulator or nil.
 func Active() *Sim { return active.Load() }
+
+// ForeignSeen reports whether the library spawned a goroutine during this run.
+func (s *Sim) ForeignSeen() bool { return s.foreign.Load() }
 
 // At registers f to run when the logical clock reaches step (absolute).
 func (s *Sim) At(step uint64, f func()) {
@@ -117,6 +123,54 @@ func (s *Sim) OnYield(f func(site int)) { s.onYield = f }
 // detector: no counters are written (they would be racy), map order is native.
 func (s *Sim) SetRaceLax() { s.raceLax = true; s.OrderMode = OrderNative }
 
+// ---------------------------------------------------------------------------------
+// goroutines the library spawns itself ("foreign" goroutines)
+//
+// The unchanged library has no go statements.  When a change adds one, the instrumenter
+// marks the spawn site; from the first spawn of a run on, every yield point and
+// map-iteration event first checks whether it comes from a goroutine the simulator owns
+// (the harness goroutine, scheduler tasks).  Foreign goroutines run freely: their yields
+// are ignored and their map iterations use Go's native order.  Such runs are no longer
+// exactly replayable; the evidence counts them.
+
+var owners sync.Map // goroutine id -> struct{}
+
+// ForeignSpawns counts go statements executed by library code (process-wide).
+var ForeignSpawns atomic.Uint64
+
+func goid() uint64 {
+	var buf [64]byte
+	n := runtime.Stack(buf[:], false)
+	// "goroutine 123 [running]:"
+	var id uint64
+	for _, c := range buf[10:n] {
+		if c < '0' || c > '9' {
+			break
+		}
+		id = id*10 + uint64(c-'0')
+	}
+	return id
+}
+
+// Own registers the calling goroutine as one the simulator owns.
+func Own() { owners.Store(goid(), struct{}{}) }
+
+// Disown removes the calling goroutine from the owners.
+func Disown() { owners.Delete(goid()) }
+
+func owned() bool {
+	_, ok := owners.Load(goid())
+	return ok
+}
+
+// ForeignSpawn is inserted before every go statement of the library.
+func ForeignSpawn(site int) {
+	ForeignSpawns.Add(1)
+	if s := active.Load(); s != nil {
+		s.foreign.Store(true)
+	}
+}
+
 // Yield is called by instrumented code at function entries, loop iterations and after
 // non-local writes.  Inactive simulator: one atomic load.
 func Yield(site int) {
@@ -129,6 +183,9 @@ func Yield(site int) {
 			s.onYield(site)
 		}
 		return
+	}
+	if s.foreign.Load() && !owned() {
+		return // a goroutine the library spawned itself
 	}
 	if s.quiet > 0 {
 		return
@@ -254,7 +311,7 @@ func sortedKeys[M ~map[K]V, K comparable, V any](m M) []K {
 func RangeMap[M ~map[K]V, K comparable, V any](m M, site int) iter.Seq2[K, V] {
 	return func(yield func(K, V) bool) {
 		s := active.Load()
-		if s == nil || s.OrderMode == OrderNative || len(m) < 2 {
+		if s == nil || s.OrderMode == OrderNative || len(m) < 2 || (s.foreign.Load() && !owned()) {
 			for k, v := range m {
 				if !yield(k, v) {
 					return
